@@ -5,7 +5,7 @@
 import os, sys
 sys.path.insert(0, os.path.join(os.environ.get("AIOFTP_REPO", "/repo"), "src"))
 OBLIGATION = 'aioftp.server:Server.rmd#SEQ::PathConditions.__call__.<locals>.wrapper/call:Server.get_paths/pre:user-and-cwd-set'
-MODEL = {'restart_offset!10': 0, 'u_cur_home!17': 'Empty(Seq(String))', 'block_size!0': 1, 'cwd!18': 'Empty(Seq(String))', 'logged_done!14': False, 'current_directory_done!16': True, 'current_directory_present!15': True, 'user_done!12': False, 'logged_present!13': True}
+MODEL = {'restart_offset!10': 0, 'logged_done!14': False, 'block_size!0': 1, 'current_directory_done!16': True, 'cwd!115': 'Empty(Seq(String))', 'current_directory_present!15': True, 'user_done!12': False, 'u_cur_home!114': 'Empty(Seq(String))', 'logged_present!13': True}
 SOLVER_NOTE = ''
 
 print("obligation", OBLIGATION, "failed; no concrete failing input could be constructed automatically")
